@@ -428,6 +428,7 @@ struct seq_state {
                                    // a request that breaks it (only shrinking produces one) is skipped on both sides
     std::size_t ex = 0;            // sizeof(T) of promise_extra_storage, 0 = none
     std::uint64_t next_tag = 1000;
+    bool throw_next = false;       // the next call of the extra object's factory throws
 };
 
 static std::string where(seq_state &S, const char *p) {
@@ -526,6 +527,42 @@ static std::string extra_after_free(seq_state &st, const frame_rec &f, const ex_
         else os << ((ld && dd >= 1) ? "far" : "none");
     }
     os << (ok ? ":ok" : ":bad");
+    return os.str();
+}
+
+template <typename S>
+static async<void> make_coro(S &stor, int kind, frame_rec *f) {
+    switch (kind) {
+        case 0: return coro_fn<S, KIND_N[0]>(stor, f);
+        case 1: return coro_fn<S, KIND_N[1]>(stor, f);
+        case 2: return coro_fn<S, KIND_N[2]>(stor, f);
+        case 3: return coro_fn<S, KIND_N[3]>(stor, f);
+        case 4: return g_host.member_fn<S, KIND_N[0]>(stor, f);
+        case 5: return g_host.member_fn<S, KIND_N[1]>(stor, f);
+        case 6: return g_host.member_fn<S, KIND_N[2]>(stor, f);
+        default: return g_host.member_fn<S, KIND_N[3]>(stor, f);
+    }
+}
+
+// promise_extra_storage::alloc whose factory throws: no frame and no extra object may remain, and whatever the inner
+// policy handed out must have been given back when the exception arrives here
+template <typename S>
+static std::string op_throw(seq_state &st, S &stor, std::size_t sz, int kind /* -1 raw, else coroutine kind */) {
+    frame_rec scratch;
+    ex_snapshot s0;
+    bool thrown = false;
+    st.throw_next = true;
+    last_req = 0;
+    try {
+        if (kind < 0) (void)stor.alloc(sz);
+        else { async<void> c = make_coro(stor, kind, &scratch); (void)c; }
+    } catch (const vh::test_exc &) {
+        thrown = true;
+    }
+    st.throw_next = false;
+    std::ostringstream os;
+    os << (kind < 0 ? "athrow" : "cthrow") << " sz=" << last_req << " thrown=" << thrown
+       << " ex=+" << (extra_reg::ctor + extra_reg::mctor - s0.c - s0.m) << "-" << (extra_reg::dtor - s0.d);
     return os.str();
 }
 
@@ -715,7 +752,7 @@ static void seq_loop(seq_state &st, Pol &pol, std::function<std::string(const st
         bool occupied = false;
         if (st.single)
             for (auto &f : st.frames) occupied = occupied || f->live;
-        if (occupied && (w[0] == "alloc" || w[0] == "coro" || w[0] == "cdrop" || w[0] == "cstart")) {
+        if (occupied && (w[0] == "alloc" || w[0] == "coro" || w[0] == "cdrop" || w[0] == "cstart" || w[0] == "athrow" || w[0] == "cthrow")) {
             head = "skip";
         } else if (w[0] == "alloc" && w.size() >= 3) {
             std::size_t k = std::strtoul(w[1].c_str(), nullptr, 10), sz = std::strtoul(w[2].c_str(), nullptr, 10);
@@ -724,6 +761,10 @@ static void seq_loop(seq_state &st, Pol &pol, std::function<std::string(const st
             std::size_t k = std::strtoul(w[1].c_str(), nullptr, 10);
             int kind = std::atoi(w[2].c_str()) & 7;
             head = pol.has(k) ? op_alloc(st, pol.sel(k), w[0] == "cdrop" ? std::size_t(-2) : 0, kind) : "skip";
+        } else if ((w[0] == "athrow" || w[0] == "cthrow") && w.size() >= 3) {
+            std::size_t k = std::strtoul(w[1].c_str(), nullptr, 10), v = std::strtoul(w[2].c_str(), nullptr, 10);
+            if (!st.ex || !pol.has(k)) head = "skip";
+            else head = op_throw(st, pol.sel(k), v, w[0] == "athrow" ? -1 : static_cast<int>(v & 7));
         } else if (w[0] == "cstart" && w.size() >= 4) {
             std::size_t k = std::strtoul(w[1].c_str(), nullptr, 10);
             int kind = std::atoi(w[2].c_str()) & 7;
@@ -748,7 +789,13 @@ static void drain_case() {
 
 template <std::size_t N>
 static auto make_factory(seq_state &st) {
-    return [p = &st.next_tag]() { return extra_obj<N>((*p)++); };
+    return [p = &st.next_tag, t = &st.throw_next]() {
+        if (*t) {
+            *t = false;
+            throw vh::test_exc(19);
+        }
+        return extra_obj<N>((*p)++);
+    };
 }
 
 template <typename Inner, std::size_t N>
